@@ -469,6 +469,7 @@ def lookup_scenarios(thorough):
     add("2t-broken", two, ["broken"], [])
     add("2t-broken-fixed", two, ["broken"], [M])
     add("2t-break", two, ["ok"], [B], warm=True)
+    add("2t-break-cold", two, ["ok"], [B])          # a failing compile racing with a successful one for the same URI
     add("2t-missing", {"t1": 1, "t2": 2}, ["ok", "absent"], [])
     add("2t-nochecks", two, ["ok"], [M], fsc=False)
     add("2t-nochecks-warm", two, ["ok"], [T, T, M], fsc=False, warm=True)
@@ -480,7 +481,7 @@ def lookup_scenarios(thorough):
     add("2t-race-then-same-uri", {"t1": 1, "t2": 1, "t3": 1}, ["ok"], [], after=follow)
     add("2t-race-then-reload", {"t1": 1, "t2": 1, "t3": 1}, ["ok"], [T, T, M], after=follow)
     add("2t-stale-race-then-other-uri", {"t1": 1, "t2": 1, "t3": 2}, ["ok", "ok"], [T, T, M], warm=True, after=follow)
-    add("3t-two-uris-pb2", {"t1": 1, "t2": 1, "t3": 2}, ["ok", "ok"], [], mode="bounded", bound=2)
+    add("3t-two-uris-pb%d" % (2 if thorough else 1), {"t1": 1, "t2": 1, "t3": 2}, ["ok", "ok"], [], mode="bounded", bound=2 if thorough else 1)
     if thorough:
         # beyond the quick tier: complete where the limit allows, otherwise a depth-first sample (recorded as incomplete)
         add("2t-same-modify-mid", two, ["ok"], [T, T, M, T, T], must=False)
@@ -741,7 +742,7 @@ def check(run):
     thorough = run.thorough
     procs = int(os.environ.get("VERIF_PROCS", "10"))
     tw = int(os.environ.get("VERIF_TLC_WORKERS", "4"))
-    par = int(os.environ.get("VERIF_TLC_PAR", "3"))
+    par = int(os.environ.get("VERIF_TLC_PAR", "4"))
     complaints = []
     scs = lookup_scenarios(thorough)
     ljobs = [dict(s, type="dfs", root=run.subdir("w-" + s["name"]), limit=(12000 if thorough else 8000)) for s in scs]
